@@ -603,6 +603,17 @@ func buildDuty(ctx context.Context, pl *Plan, rp *RunPlan, slot uint64) *atteste
 				})
 			}
 		}
+		if rp.Large && len(rp.Entries) > 0 {
+			// forty more duties of other validators in the following slots
+			for i := 0; i < 40; i++ {
+				other := slot + 3 + uint64(i%8)
+				in = append(in, &apiv1.AttesterDuty{
+					PubKey: env.PubKey(pl.Vals[rp.Entries[0].V].Key), Slot: phase0.Slot(other), ValidatorIndex: phase0.ValidatorIndex(800000 + i),
+					CommitteeIndex: phase0.CommitteeIndex(i % 4), CommitteeLength: 64, CommitteesAtSlot: 4,
+					ValidatorCommitteeIndex: uint64(i),
+				})
+			}
+		}
 		duties, err := attester.MergeDuties(ctx, in)
 		if err != nil {
 			panic(fmt.Sprintf("MergeDuties: %v (%d duties)", err, len(duties)))
